@@ -850,6 +850,9 @@ func main() {
 	}
 
 	o.Extra["panics_by_site"] = h.panics
+	// ---- system.local / system.peers rows through the host-row decoders -----------------------------------------
+	hostRows(h)
+	hostChildScenarios(o)
 	// ---- PREPARED / rows replies the layers above parseFrame must survive, on a real session -------------------
 	execScenarios(h)
 	// ---- the driver's own goroutines: handshake and heartbeat against a scripted node, in child processes ------
